@@ -156,9 +156,9 @@ def check(run):
         print("spec:           " + res["spec"][0])
         compare(run, exe, [line], [{"key": "replay", "image": img, "pfns": []}], res)
         return
-    plan = [("dd", 120 if quick else 4000), ("elf", 100 if quick else 6000),
-            ("sadump", 80 if quick else 3000), ("lkcd", 100 if quick else 6000),
-            ("s390", 40 if quick else 1000)]
+    plan = [("dd", 120 if quick else 2000), ("elf", 100 if quick else 2000),
+            ("sadump", 80 if quick else 1200), ("lkcd", 100 if quick else 2000),
+            ("s390", 40 if quick else 400)]
     only = os.environ.get("VERIF_C01_FORMATS")
     if only:
         plan = [p for p in plan if p[0] in only.split(",")]
